@@ -240,6 +240,22 @@ def sample(W, cfg):
         rounds.setdefault('draw', []).append(U.rng.draws)
         return orig_multi(nn, p)
     U.rng.multinomial = multinomial
+    cands = []
+    orig_shuffle, orig_random = U.rng.shuffle, U.rng.random
+
+    def shuffle(arr):
+        orig_shuffle(arr)
+        cands.append(dict(rows=[[arr[j][k] for k in range(U.n_dim)]
+                                for j in range(len(arr))]))
+
+    def random(size=None):
+        d0 = U.rng.draws
+        r = orig_random(size)
+        if cands and 'u' not in cands[-1]:
+            cands[-1]['u'] = [U.rng.value_of(d0, 'u', i)
+                              for i in range(int(size))]
+        return r
+    U.rng.shuffle, U.rng.random = shuffle, random
     ok, out = call(W, 'C13:sample-no-raise', lambda: U.sample(n))
     if not ok:
         return
@@ -262,6 +278,35 @@ def sample(W, cfg):
                 W.require(world._and(out[j][k] >= 0, out[j][k] < 1),
                           'C07:sample-in-unit-cube', 'row %d' % j)
     check_cache_sound(W, U, '-after-sample')
+    # acceptance with probability 1/multiplicity, own draw per proposal (C08)
+    final = [[out[j][k] for k in range(U.n_dim)] for j in range(len(out))] + \
+        post['cache']
+    for cd in cands:
+        if 'u' not in cd:
+            continue
+        W.require(len(cd['u']) == len(cd['rows']), 'C08:one-draw-per-proposal',
+                  '')
+        for i, row in enumerate(cd['rows']):
+            acc = any(all(ident(W, x, y) if W.symbolic else W.same(x, y)
+                          for x, y in zip(row, f)) for f in final)
+            mult = 0
+            for b in U.bounds:
+                c = b._contains1(row)
+                mult = mult + (1 if c is True else 0 if c is False else
+                               W.np.array([c]).astype(int)[0]
+                               if W.symbolic else int(bool(c)))
+            m = W.concrete_int(mult)
+            if m < 1:
+                continue
+            u = cd['u'][i]
+            from fractions import Fraction
+            thr = Fraction(m - 1, m) if W.symbolic else 1 - 1.0 / m
+            if acc:
+                W.require(W.leq(thr, u), 'C08:accept-with-probability-1/m',
+                          'accepted proposal with multiplicity %d' % m)
+            else:
+                W.require(W.leq(u, thr), 'C08:accept-with-probability-1/m',
+                          'rejected proposal with multiplicity %d' % m)
     # counters (C08): n_sample grows by the block per round, n_reject by
     # block - accepted
     block = rounds.get('p', [])
